@@ -1359,7 +1359,13 @@ func (g *generator) nextInner() Op {
 				if filterDeckPos >= len(filterDeck) {
 					filterDeck = filterDeck[:0]
 					for ar := 0; ar <= 12; ar++ {
-						for _, m := range []string{"Exclusive", "With", "Without", "Optional", "WithRelation", "Register"} {
+						for _, m := range []string{"Exclusive", "With", "Without", "Without2", "WithoutLate", "Optional", "WithRelation", "Register"} {
+							if m == "Without2" && ar > 10 {
+								continue
+							}
+							if m == "WithoutLate" && ar == 0 {
+								continue
+							}
 							if (m == "Optional" && ar == 0) || (m == "WithRelation" && ar < 3) {
 								continue
 							}
@@ -1398,6 +1404,32 @@ func (g *generator) nextInner() Op {
 					if c.ar < 12 {
 						plan = append(plan, Op{Op: "BuilderNew", Api: "generic.Map.New", Ar: c.ar + 1, Tgt: -1})
 					}
+				}
+				if c.api == "WithoutLate" {
+					// the filter excludes a component type the world has not registered yet, is used (compiled), then the
+					// type is registered by giving it to one of the two matching entities: that entity must drop out
+					if g.x.lateDone {
+						continue
+					}
+					a := len(g.x.issued)
+					mk := Op{Op: "BuilderNew", Api: "generic.Map.New", Ar: c.ar, Tgt: -1}
+					b1 := Op{Op: "GBuild", Api: "generic.Filter.Without", Qi: gi, Ids: []int{lateComp}, Tgt: -1}
+					plan := []Op{mk, mk, b1, q}
+					if g.pct(50) {
+						plan = append(plan, Op{Op: "GBuild", Api: "generic.Filter.Register", Qi: gi, Tgt: -1}, q)
+					}
+					plan = append(plan, Op{Op: "Exchange", Api: "World.Add", E: a + 1, Add: []int{lateComp}, Rem: []int{}, Tgt: -1}, q)
+					g.plan = plan
+					return Op{Op: "GNewFilter", Api: "generic.NewFilter", Ar: c.ar}
+				}
+				if c.api == "Without2" {
+					// two Without calls whose argument lists overlap: the second one names a component again and adds the
+					// one that tells the two entities apart
+					b1 := Op{Op: "GBuild", Api: "generic.Filter.Without", Qi: gi, Ids: []int{c.ar + 1}, Tgt: -1}
+					b2 := Op{Op: "GBuild", Api: "generic.Filter.Without", Qi: gi, Ids: []int{c.ar + 1, c.ar}, Tgt: -1}
+					plan = append(plan, q, b1, q, b2, q)
+					g.plan = plan
+					return Op{Op: "GNewFilter", Api: "generic.NewFilter", Ar: c.ar}
 				}
 				plan = append(plan, q, b, q)
 				if c.api == "Register" {
@@ -1507,6 +1539,10 @@ func (g *generator) nextInner() Op {
 		case "res":
 			if g.p.NRes == 0 {
 				continue
+			}
+			if g.x.lazyRes < 6 && g.p.NRes < 200 && g.pct(10) {
+				// a resource type this world has never seen, looked up by type - whatever the lock state
+				return Op{Op: "ResLazy", Api: []string{"ecs.GetResource", "ecs.ResourceID", "generic.NewResource"}[g.rng.Intn(3)], R: g.x.lazyRes}
 			}
 			r := g.rng.Intn(g.p.NRes)
 			has := g.x.w.Resources().Has(g.x.resIDs[r])
